@@ -121,7 +121,7 @@ def run(a, tmp):
             verdict = "invalid"
             if r.returncode == 0:
                 try:
-                    o = subprocess.run("ulimit -v 8000000; exec ./harness.bin run", shell=True, cwd=d, stdin=open(sample),
+                    o = subprocess.run("ulimit -v 8000000; GOMAXPROCS=2 exec ./harness.bin run", shell=True, cwd=d, stdin=open(sample),
                                        capture_output=True, timeout=120)
                     verdict = "survived" if (o.returncode == 0 and hashlib.sha1(o.stdout).hexdigest() == refh) else "killed"
                 except subprocess.TimeoutExpired:
